@@ -257,6 +257,7 @@ type Obligation struct {
 	Auto     bool // helper obligation of an uncontracted loop: never named in the ledger, always checked
 	Cheap    bool // package sweep: only the short focused query is tried
 	Retried  bool // no definite answer within the limit on the first pass; decided again alone with a longer limit
+	shortLimit bool // thorough tier, obligation unclaimed on the reference tree: tried with the quick limit only
 }
 
 type Log struct {
@@ -828,8 +829,25 @@ func race(file string, timeoutS int, agree bool, cvc5OK bool) (solveResult, []so
 	}
 	var all []solveResult
 	var best *solveResult
+	start := time.Now()
+	var grace <-chan time.Time
 	for i := 0; i < n; i++ {
-		r := <-ch
+		var r solveResult
+		select {
+		case r = <-ch:
+		case <-grace:
+			// agreement mode: the other solvers got three times what the first definite answer took (at least 3 s);
+			// a solver that needs longer is recorded as not having agreed in time, not waited for up to the full limit
+			cancel()
+			for j := i; j < n; j++ {
+				r = <-ch
+				if r.status != "unsat" && r.status != "sat" {
+					r.status = "timeout"
+				}
+				all = append(all, r)
+			}
+			return *best, all
+		}
 		all = append(all, r)
 		if (r.status == "unsat" || r.status == "sat") && best == nil {
 			rr := r
@@ -838,6 +856,11 @@ func race(file string, timeoutS int, agree bool, cvc5OK bool) (solveResult, []so
 				cancel()
 				return *best, all
 			}
+			g := 3 * time.Since(start)
+			if g < 3*time.Second {
+				g = 3 * time.Second
+			}
+			grace = time.After(g)
 		}
 	}
 	if best != nil {
@@ -895,6 +918,10 @@ func discharge(l *Log, extraPrelude string, obs []*Obligation, o dischargeOpts) 
 					}
 				}
 			}()
+			o := o
+			if ob.shortLimit && o.timeoutS > 10 {
+				o.timeoutS = 10
+			}
 			if !ob.Smoke {
 				// stage 1: focused slice (definitions of the goal's symbols + facts over them); unsat there is final
 				fq := l.buildQuery(ob, extraPrelude, true)
